@@ -171,6 +171,7 @@ def execute(scn):
     failed_persisted = {}
     failed_phase = {}
     wiped_unmarked = set()
+    failed_scopes, failed_scopes_next = set(), set()
     active = list(P['order'])
     rows_loaded = False
     cur_v = None
@@ -215,12 +216,17 @@ def execute(scn):
                 if any(x[2] == la for x in pre_rows):
                     stats['mark_all_with_recorded'] = 1
                 det = dict(run=run_idx, step=si, driver='mark_all',
+                           earlier_failed_scopes=sorted(failed_scopes),
                            status=m.status, faulted=False, fault_scope=None,
                            phase=None, **detail0)
                 seen = set()
+                pre_keys = [(x[2], x[3]) for x in pre_rows]
+                post_keys = [(x[2], x[3]) for x in post_rows]
                 for x in post_rows:
                     key = (x[2], x[3])
-                    if key in seen and key[0] in P['order']:
+                    # (only duplicates this command added)
+                    if key in seen and key[0] in P['order'] and \
+                            post_keys.count(key) > pre_keys.count(key):
                         viols.append(violation('C08.recorded_twice',
                                                app=key[0], label=key[1],
                                                **det))
@@ -298,7 +304,9 @@ def execute(scn):
                 fired += 1
                 stats['fired_%s_%s' % (step['fault']['kind'],
                                        step['fault']['scope'])] = 1
+                failed_scopes_next.add(step['fault']['scope'])
             detail = dict(run=run_idx, step=si, driver=step['driver'],
+                          earlier_failed_scopes=sorted(failed_scopes),
                           status=r.status, faulted=inj is not None,
                           fault_scope=(step.get('fault') or {}).get('scope')
                           if inj is not None else None,
@@ -382,6 +390,7 @@ def execute(scn):
                                     'C08.fresh_sequence_not_recorded',
                                     app=la, label=l, **detail))
             prev = snap
+            failed_scopes |= failed_scopes_next
         res['runs'] = ws.nruns
     res['nontrivial'] = n_exec_runs >= 2 or fired > 0
     if scn['simple']:
